@@ -1169,7 +1169,16 @@ func (rn *wireRunner) cidSx(real string) *Sx { return S(rn.canon(real)) }
 func wireRewrite(m *gmqtt.Message, act *Sx) {
 	m.Topic = act.List[1].Str()
 	m.Payload = act.List[2].Bytes()
-	m.QoS = byte(act.List[3].Int())
+	// the last argument packs QoS and RETAIN (Model/Broker.v rw_qos, rw_retain): qos = q mod 4; q / 4 = 0 leaves the
+	// RETAIN flag alone, 1 clears it, 2 sets it
+	q := act.List[3].Int()
+	m.QoS = byte(q % 4)
+	switch q / 4 {
+	case 1:
+		m.Retained = false
+	case 2:
+		m.Retained = true
+	}
 }
 
 func (rn *wireRunner) hooks() server.Hooks {
